@@ -465,3 +465,20 @@ Theorem copyto_structure :
   In (SAssign [GVar "dstColl"] ":=" [GCall "dstStore.SetCollection" [GVar "name"; GVar "srcColl.compare"]])
      (match nth_error (body "Store.CopyTo") 4 with Some (SRange _ _ _ b) => b | _ => [] end).
 Proof. repeat split; vm_compute; auto 10. Qed.
+
+(* 20. Flush pins the collections in NAME order (C05: a later-named collection is never persisted in an older state
+   than it had when an earlier-named one was captured): both loops of Flush range over cnames = collNames(coll), and
+   collNames sorts *)
+Definition ranges (ss : list gstmt) : list (gexpr * list gstmt) :=
+  flat_map (fun s => match s with SRange _ _ x b => [(x, b)] | _ => [] end) ss.
+
+Theorem flush_pins_in_name_order :
+  In (SAssign [GVar "cnames"] ":=" [GCall "collNames" [GVar "coll"]]) (body "Store.Flush") /\
+  (exists b1 b2, ranges (body "Store.Flush") = [(GVar "cnames", b1); (GVar "cnames", b2)] /\
+                 In "c.rootAddRef" (calls 50 b1) /\ In "coll[name].write" (calls 50 b2)) /\
+  (exists pre, body "collNames" = pre ++ [SExpr (GCall "sort.Strings" [GVar "res"]); SReturn [GVar "res"]]).
+Proof.
+  split; [vm_compute; auto 10|]. split.
+  - do 2 eexists. split; [vm_compute; reflexivity|]. split; vm_compute; auto.
+  - eexists [_; _]. vm_compute. reflexivity.
+Qed.
